@@ -715,8 +715,8 @@ class Unit:
         """self == other"""
         if isinstance(other, Unit):
             if self.qty_cls is other.qty_cls:
-                if self._equiv is None:
-                    assert other._equiv is None
+                if self._equiv is None or self.qty_cls.ref_unit is None:
+                    # without a reference unit there is no common scale
                     return self is other
                 else:
                     assert other._equiv is not None
@@ -879,6 +879,13 @@ class Unit:
                     amnt = ONE
                 else:
                     if self._equiv is None or other._equiv is None:
+                        raise UnitConversionError(
+                            "Can't devide '%s' and '%s'.", self, other) \
+                            from None
+                    if self.qty_cls.ref_unit is None and \
+                            self.normalized_definition.split()[1] != \
+                            other.normalized_definition.split()[1]:
+                        # not based on the same base units
                         raise UnitConversionError(
                             "Can't devide '%s' and '%s'.", self, other) \
                             from None
